@@ -15,13 +15,17 @@ import interstitial_common as ic
 META = dict(
     id='C05',
     lean_modules=['OnsagerProofs.Lemmas.Variational', 'OnsagerModel.C02', 'OnsagerModel.C05', 'OnsagerModel.InterstitialDriver',
-                  'OnsagerProofs.C02', 'OnsagerProofs.C05'],
-    theorems=['Onsager.Var.Q_le_of_rateLE', 'Onsager.Var.Q_mono', 'Onsager.C05.rate_lower', 'Onsager.C05.lowering_monotone'],
+                  'OnsagerProofs.C02', 'OnsagerProofs.C05', 'OnsagerModel.Chain', 'OnsagerModel.ChainMono', 'OnsagerProofs.Chain', 'OnsagerProofs.ChainMono'],
+    theorems=['Onsager.Var.Q_le_of_rateLE', 'Onsager.Var.Q_mono', 'Onsager.C05.rate_lower', 'Onsager.C05.lowering_monotone',
+              'Onsager.Chain.chain_monotone'],
     tie_theorems=[],
     level_text='Kernel-checked for the exact interstitial model: for every network, rational data with q>=1, jump class, amount and '
                'direction, lowering a transition-state energy never lowers u.D.u (site probabilities untouched, class rates multiplied by '
-               'q^delta>=1, minimum of the variational functional monotone in the rates). The same variational lemma (Q_mono) is the '
-               'reason for L0vv and Lss; for the vacancy-mediated code those are tied by the direct oracle only (partial).',
+               'q^delta>=1, minimum of the variational functional monotone in the rates). For the vacancy-mediated coefficients: kernel-checked '
+               'for EVERY finite reversible solute-vacancy chain (chain_monotone: same transitions, weights nowhere smaller => every diagonal '
+               'Lss and Lvv component not smaller); the hypothesis is decided by the driver on the periodic chains built from the '
+               'implementation tables before/after lowering an omega0/omega1/omega2 barrier. The infinite-dilution limit computed by Lij '
+               '(Green function) is tied by the direct oracle only (partial).',
     level_note='Trusted: Lean kernel + standard axioms; the correspondence of Interstitial.diffusivity with the exact model (C02); '
                'for the vacancy-mediated coefficients the Green-function numerics are outside the model.',
     technique='Lean 4 monotonicity theorem on the exact model + differential pairs on Interstitial.diffusivity + PSD oracle on VacancyMediated.Lij',
@@ -86,7 +90,57 @@ def run(ctx):
             ctx.violation('interstitial-decreases:%s' % name,
                           'lowering transition-state energy of class %d by %d ln q decreased the diffusivity (min eigenvalue of the change %.3g)' % (k, delta, wmin),
                           dict(rep, D_before=D0.tolist(), D_after=D1.tolist()))
+    chain_part(ctx)
     vacancy_part(ctx)
+
+
+def chain_part(ctx):
+    """Exact finite solute-vacancy chains before/after lowering one transition-state energy: the hypothesis of
+    Chain.chain_monotone (same transitions and displacements, weights nowhere smaller) is decided by the driver on the two
+    chains built from the implementation's own tables, and the exact coefficients are compared."""
+    import vacancy_common as vc, oracle_chain as oc
+    from props.c01 import exact_rand_data
+    rng = ctx.rng
+    cases = [('sq2d', 5), ('rect2d-2site', 5), ('honey2d', 5)] if ctx.quick else \
+            [('sq2d', 5), ('sq2d', 7), ('tri2d', 5), ('honey2d', 5), ('rect2d-2site', 5), ('oblique2d', 5), ('fcc', 5), ('bcc', 5)]
+    mono, exact, meta = [], [], []
+    for name, n in cases:
+        calc = vc.calculator(name, 1)
+        for rep_ in range(1 if ctx.quick else 3):
+            q, d = exact_rand_data(rng, calc)
+            which = rng.choice(['eneT0', 'eneT1', 'eneT2'])
+            j = rng.randrange(len(d[which])); amt = rng.randint(1, 3)
+            d1 = {k: list(v) for k, v in d.items()}; d1[which][j] -= amt
+            try:
+                ch0 = oc.chain_transitions(calc, oc.activities_exact(q, d), n)
+                ch1 = oc.chain_transitions(calc, oc.activities_exact(q, d1), n)
+            except ValueError as e:
+                ctx.note('chain %s n=%d skipped: %s' % (name, n, e)); continue
+            l0 = oc.lean_request(ch0, calc.crys); l1 = oc.lean_request(ch1, calc.crys)
+            mono.append(l0.rsplit(' | ', 1)[0] + ' # ' + l1.rsplit(' | ', 1)[0])
+            exact += [l0, l1]
+            meta.append((name, n, calc, which, j, amt, d))
+    if not meta: return
+    ans_m = ctx.lean('Drive/ChainMono.lean', mono, timeout=3000)
+    ans_e = ctx.lean('Drive/Chain.lean', exact, timeout=3000)
+    for k, (name, n, calc, which, j, amt, d) in enumerate(meta):
+        dim = calc.crys.dim
+        rep = dict(calculator=name, n=n, lowered=[which, j, amt], data={kk: [str(x) for x in v] for kk, v in d.items()})
+        ctx.case(('chain-mono', name, n, which, j, amt, str(d)), nontrivial=True, sample=rep)
+        ctx.count('chain:%s:%s' % (name, which)); ctx.count('chain:' + ans_m[k])
+        a, b = ans_e[2 * k], ans_e[2 * k + 1]
+        if ans_m[k] != 'raised=1':
+            ctx.disagree('the chains before/after lowering %s[%d] do not satisfy the hypothesis of chain_monotone (%s): the chain construction from the '
+                         'implementation tables changed states, transitions or lowered a weight' % (which, j, ans_m[k]), rep); continue
+        if not (a.startswith('ok ') and b.startswith('ok ')):
+            ctx.disagree('exact chain model rejects a chain: %s / %s' % (a[:30], b[:30]), rep); continue
+        ta = [[Fraction(x) for x in p_.strip().split(',')] for p_ in a[3:].split('|')]
+        tb = [[Fraction(x) for x in p_.strip().split(',')] for p_ in b[3:].split('|')]
+        for blk, lab in ((0, 'Lss'), (2, 'Lvv')):
+            for al in range(dim):
+                if tb[blk][al * dim + al] < ta[blk][al * dim + al]:
+                    ctx.disagree('exact model contradicts chain_monotone: %s_%d%d decreases' % (lab, al, al), rep)
+        if any(tb[0][al * dim + al] > ta[0][al * dim + al] for al in range(dim)): ctx.count('chain:strict-increase')
 
 
 def vacancy_part(ctx):
